@@ -460,21 +460,37 @@ func main() {
 	// ---------------- determinism spot-check ----------------
 	det := map[string]any{"samples": 0}
 	if detN > 0 && len(agg.Failures) == 0 {
-		n, err := detCheck(bin, runDir, baseEnv, sums, detN, *workers)
+		n, fresh, err := detCheck(bin, runDir, baseEnv, sums, detN, *workers)
 		det["samples"] = n
 		det["gomaxprocs"] = []int{1, 4, 16}
 		if err != nil {
-			// Look again before crying wolf: the same sample twice more. A divergence that
-			// shows up again is a hole in the simulator (exit 2: nothing this run reports
-			// could be replayed reliably); one that does not is recorded and reported, but
-			// the verdict of the oracles on the runs that were executed stands.
-			fmt.Printf("DETERMINISM-WARNING %v\n", err)
-			_, err2 := detCheck(bin, runDir, baseEnv, sums, detN, *workers)
-			_, err3 := detCheck(bin, runDir, baseEnv, sums, detN, *workers)
-			if err2 != nil && err3 != nil {
-				fatal2("NONDETERMINISM (3 of 3 re-executions diverged): %v", err)
+			// Look again before crying wolf: three more fresh processes. What makes a run
+			// unreplayable is fresh executions that disagree with each other; then the check
+			// exits 2 (nothing this run reports could be replayed reliably). If all six fresh
+			// executions agree and only the execution inside the batch differs, that one
+			// execution was an outlier: recorded and reported as a warning, and the verdict
+			// of the oracles on the runs that were executed stands.
+			if fresh == nil {
+				fatal2("determinism spot check could not be carried out: %v", err)
 			}
-			det["result"] = "1 of 3 re-executions of the sample diverged from the batch (recorded as a warning): " + firstLine(err.Error())
+			fmt.Printf("DETERMINISM-WARNING %v\n", err)
+			_, fresh2, err2 := detCheck(bin, runDir, baseEnv, sums, detN, *workers)
+			if err2 != nil && fresh2 == nil {
+				fatal2("determinism re-check failed: %v", err2)
+			}
+			disagree := ""
+			for idx, ls := range fresh {
+				all := append(append([]string{}, ls...), fresh2[idx]...)
+				for _, l := range all[1:] {
+					if l != all[0] {
+						disagree = fmt.Sprintf("run %d: fresh executions disagree with each other: %q vs %q", idx, all[0], l)
+					}
+				}
+			}
+			if disagree != "" {
+				fatal2("NONDETERMINISM: %s", disagree)
+			}
+			det["result"] = "one execution inside the batch differed from six identical fresh executions of the same run (recorded as a warning): " + firstLine(err.Error())
 		} else {
 			det["result"] = "identical schedule hash, trace hash and verdict in fresh processes"
 			fmt.Printf("determinism: %d runs re-executed in fresh processes at GOMAXPROCS 1/4/16: identical\n", n)
@@ -724,7 +740,8 @@ func doReplay(bin, runDir string, baseEnv []string, prop, path string) int {
 
 // detCheck re-executes a sample of the batch's runs, one fresh process per GOMAXPROCS
 // setting, and compares (schedule hash, trace hash, verdict) lines.
-func detCheck(bin, runDir string, baseEnv []string, sums []*harness.Summary, n, workers int) (int, error) {
+func detCheck(bin, runDir string, baseEnv []string, sums []*harness.Summary, n, workers int) (int, map[int][]string, error) {
+	fresh := map[int][]string{}
 	want := map[int]string{}
 	for _, s := range sums {
 		for _, l := range s.Log {
@@ -742,7 +759,7 @@ func detCheck(bin, runDir string, baseEnv []string, sums []*harness.Summary, n, 
 		idxs = idxs[:n]
 	}
 	if len(idxs) == 0 {
-		return 0, nil
+		return 0, fresh, nil
 	}
 	list := make([]string, len(idxs))
 	for i, x := range idxs {
@@ -765,14 +782,19 @@ func detCheck(bin, runDir string, baseEnv []string, sums []*harness.Summary, n, 
 				if firstErr == nil {
 					firstErr = err
 				}
+				fresh = nil
 				return
 			}
 			if s.HarnessErr != "" && firstErr == nil {
 				firstErr = fmt.Errorf("%s", s.HarnessErr)
+				fresh = nil
 			}
 			for _, l := range s.Log {
 				f := strings.SplitN(l, " ", 2)
 				idx, _ := strconv.Atoi(f[0])
+				if fresh != nil {
+					fresh[idx] = append(fresh[idx], l)
+				}
 				if w, ok := want[idx]; ok && w != l && firstErr == nil {
 					firstErr = fmt.Errorf("run %d differs between the batch and a fresh process at GOMAXPROCS=%d:\n batch: %s\n fresh: %s", idx, gmp, w, l)
 				}
@@ -783,7 +805,7 @@ func detCheck(bin, runDir string, baseEnv []string, sums []*harness.Summary, n, 
 		}(gmp)
 	}
 	wg.Wait()
-	return len(idxs), firstErr
+	return len(idxs), fresh, firstErr
 }
 
 // minimise shrinks the tape. Every attempt is one fresh process; the attempts of a round run
